@@ -146,6 +146,15 @@ func (P *Program) VerifyFunc(ct *Contract, fn *ssa.Function) (res *FuncResult) {
 	entry := ex.entry
 	pkg := P.pkgOfFn(fn, ct)
 	vars := f.specVarsFor(ct, fn, fn.Signature, args, false)
+	if ct.Iterator && !ct.Trusted && !aimOn {
+		// the body of an iterator is verified: calls of its callback parameter are yield points
+		for k := len(fn.Params) - 1; k >= 0; k-- {
+			if _, isFn := fn.Params[k].Type().Underlying().(*types.Signature); isFn {
+				ex.iterSelf = &iterSelf{param: fn.Params[k], ct: ct, vars: vars}
+				break
+			}
+		}
+	}
 	_, im := P.mergedContract(ct)
 	// axioms
 	for _, ax := range P.axioms {
